@@ -57,7 +57,7 @@ manifest = {
         "serves_properties": [c["property_id"] for c in checks],
         "kind_free_text": "Coq 8.16.1 theorems about Gallina models (coq/theories), tied to /repo on every run by a Python-ast translator "
                           "(Gen/*.v regenerated) and/or by an in-Coq correspondence check (vm_compute on the inputs the implementation ran); "
-                          "Python property oracles only search for a failing input",
+                          "redundantly, the decision / loop functions are translated from the source on every run and proved equal to the hand models (Props/GenTie*.v); Python property oracles only search for a failing input",
     }],
     "checks": checks,
     "not_applicable": na,
